@@ -440,6 +440,7 @@ func c12Replay(e *core.Env, data json.RawMessage) (bool, string) {
 func init() {
 	core.Register(&core.Check{
 		ID: "C12", Level: "model_checking", Run: c12Run, Replay: c12Replay,
+		Added:       "prices next to an 8-decimal truncation boundary (single declarations, two-step chains, same pair both ways); command level: same-day sequences for one pair, holdings restricted to connected commodities; three-file layout under every loader schedule",
 		QuickBudget: 80 * time.Second, ThoroughBudget: 14 * time.Minute,
 		Rule: "every sequence of <= n price declarations over 4 commodities (12 directed pairs x prices {2,0.5,3,0.3333,0}; reduced price set one level deeper), " +
 			"each normalized for V under every map iteration order (explorer-owned, unbounded deviations); states/transitions = choice-tree nodes/edges of the map-order exploration; non-trivial = more than one map order exists",
